@@ -65,6 +65,7 @@ def applyOps : List Op → List Nat → List Nat → Option (List Nat)
 def Op.code : Op → String
   | .keep => "K" | .insert => "I" | .delete => "D" | .replace => "R"
 
+-- @handler lev handleLev
 /-- Protocol: `lev <act> <exp>` → `<d> <ops>`. -/
 def handleLev : List String → Option String
   | [a, e] => do
@@ -77,6 +78,7 @@ def handleLev : List String → Option String
 def Op.ofCode : String → Option Op
   | "K" => some .keep | "I" => some .insert | "D" => some .delete | "R" => some .replace | _ => none
 
+-- @handler lev-check handleLevCheck
 /-- Property oracle for one implementation reply. Protocol: `lev-check <act> <exp> <d> <ops>` →
     `ok` iff the script transforms `act` into `exp`, its cost is `d`, and `d` is the minimal
     distance (`(lev act exp).1`, proved minimal in Props/C31). -/
